@@ -544,6 +544,56 @@ func init() {
 		}
 		return nil
 	}
+	// sync.Map as an insertion-ordered map from interface keys to interface values, one per sync.Map variable
+	// (package-level caches live for the length of a path)
+	syncMapOf := func(m *Machine, fr *frame, a Val) *Map {
+		p, _ := a.(*Val)
+		if p == nil {
+			m.rtPanic(fr, "nil pointer dereference (sync.Map)")
+		}
+		if m.syncMaps == nil {
+			m.syncMaps = map[*Val]*Map{}
+		}
+		mp := m.syncMaps[p]
+		if mp == nil {
+			anyT := types.NewInterfaceType(nil, nil)
+			mp = &Map{kt: anyT, vt: anyT}
+			m.syncMaps[p] = mp
+		}
+		return mp
+	}
+	stubs["(*sync.Map).Load"] = func(m *Machine, fr *frame, fn *ssa.Function, a []Val) Val {
+		if e := m.mapFind(syncMapOf(m, fr, a[0]), a[1]); e != nil {
+			return Tuple{*e.v, true}
+		}
+		return Tuple{Iface{}, false}
+	}
+	stubs["(*sync.Map).Store"] = func(m *Machine, fr *frame, fn *ssa.Function, a []Val) Val {
+		m.mapSet(syncMapOf(m, fr, a[0]), a[1], a[2])
+		return nil
+	}
+	stubs["(*sync.Map).LoadOrStore"] = func(m *Machine, fr *frame, fn *ssa.Function, a []Val) Val {
+		mp := syncMapOf(m, fr, a[0])
+		if e := m.mapFind(mp, a[1]); e != nil {
+			return Tuple{*e.v, true}
+		}
+		m.mapSet(mp, a[1], a[2])
+		return Tuple{a[2], false}
+	}
+	stubs["(*sync.Map).Delete"] = func(m *Machine, fr *frame, fn *ssa.Function, a []Val) Val {
+		m.mapDelete(syncMapOf(m, fr, a[0]), a[1])
+		return nil
+	}
+	stubs["(*sync.Map).Range"] = func(m *Machine, fr *frame, fn *ssa.Function, a []Val) Val {
+		mp := syncMapOf(m, fr, a[0])
+		for _, e := range append([]*mapEntry{}, mp.entries...) {
+			r := m.call(fr, token.NoPos, a[1], []Val{e.k, *e.v})
+			if b, ok := r.(bool); ok && !b {
+				break
+			}
+		}
+		return nil
+	}
 	stubs["(*sync.WaitGroup).Add"] = nop
 	stubs["(*sync.WaitGroup).Done"] = nop
 	stubs["(*sync.WaitGroup).Wait"] = nop
